@@ -47,11 +47,11 @@ theorem DExt_vanished {rank R w f} (hi : Inv rank R X w) (hs : (w.recs f).stamp 
 theorem chk_vanished {rank R w f r old} (hi : Inv rank R X w) (hs : Snap w R f r) (hf : r.failed = none)
     (hst : r.stamp = some old) (hne : old ≠ readStamp w f) :
     Inv rank R X (if readStamp w f = .missing ∧ r.isGenerated = true then
-        setRec w f { r with isGenerated := false, failed := some 0 } else w) ∧
+        setRec w f { r with isGenerated := false, isOverride := false, failed := some 0 } else w) ∧
     DExt rank R (rank f + 1) w (if readStamp w f = .missing ∧ r.isGenerated = true then
-        setRec w f { r with isGenerated := false, failed := some 0 } else w) ∧
+        setRec w f { r with isGenerated := false, isOverride := false, failed := some 0 } else w) ∧
     OwnRel w (if readStamp w f = .missing ∧ r.isGenerated = true then
-        setRec w f { r with isGenerated := false, failed := some 0 } else w) f := by
+        setRec w f { r with isGenerated := false, isOverride := false, failed := some 0 } else w) f := by
   split
   · have hfail : (w.recs f).failed = none := by rw [← hs.failed]; exact hf
     have hstamp : (w.recs f).stamp ≠ some (readStamp w f) := by
